@@ -8,7 +8,7 @@
 From Coq Require Import List NArith ZArith Bool.
 From WV Require Import Lib.PyBytes Lib.Regex Gen.GenRegex Model.Receiver Model.UrlSplit Model.Parser Model.ChanSeq.
 From WV Require Import Spec.Ref9112 Proof.C01Lib Proof.C01Framing Proof.C01Head Proof.C01Body Proof.C01Close
-  Proof.C01Refuse Proof.C01Observe.
+  Proof.C01Refuse Proof.C01Boundary Proof.C01Observe.
 Import ListNotations.
 Local Open Scope N_scope.
 
@@ -205,6 +205,17 @@ Theorem C01_cl_with_te_is_chunked : forall h,
   model_framing h s_1_1 = MChunked.
 Proof. exact cl_with_te_is_chunked. Qed.
 Print Assumptions C01_cl_with_te_is_chunked.
+
+(* ---- T4a: where the head ends ---------------------------------------------------- *)
+
+Theorem C01_T4_head_boundary : forall s,
+  match read_head s [] [] 0, find_double_newline s with
+  | Some (_, rest, n), Some i => n = N.of_nat i /\ rest = skipn i s
+  | None, None => True
+  | _, _ => False
+  end.
+Proof. exact head_boundary. Qed.
+Print Assumptions C01_T4_head_boundary.
 
 (* ---- the goal statement ---------------------------------------------------------- *)
 
